@@ -65,10 +65,11 @@ def isPatPrefix (pats : List Pat) (s : List Nat) : Bool :=
 def digitsOf (pats : List Pat) (s : List Nat) : Option (List Nat) :=
   (pats.reverse.find? (fun p => p.letters == s)).map (·.digits)
 
-/-- the longest suffix of `u` that satisfies `pred` (suffixes tried from the whole of `u`
-    down to the empty string) -/
-def longestSuffix (pred : List Nat → Bool) (u : List Nat) : Option (List Nat) :=
-  ((List.range (u.length + 1)).map (fun j => u.drop j)).find? pred
+/-- the longest suffix of `u` that satisfies `pred`: the whole of `u`, else the same for `u`
+    without its first character, down to the empty string -/
+def longestSuffix (pred : List Nat → Bool) : List Nat → Option (List Nat)
+  | [] => if pred [] then some [] else none
+  | c :: t => if pred (c :: t) then some (c :: t) else longestSuffix pred t
 
 /-- the digit contributed to word position `q` (the point in front of letter `q`) when the
     `i`-th character of the dot-delimited text `prep` has just been read: the longest suffix
@@ -230,9 +231,11 @@ deriving Repr
 
 def orFault (a b : Option HFault) : Option HFault := match a with | some x => some x | none => b
 
-/-- one iteration of `for (i = 0; i < wordSize + 2; i++)` (1484-1524) -/
+/-- one iteration of `for (i = 0; i < wordSize + 2; i++)` (1484-1524).  Fuel of the inner loop:
+    a state reached after `i` characters lies at depth ≤ `i` and every fallback goes to a
+    strictly shorter prefix (`seek_spec`); `d.size + 2` covers any acyclic fallback chain. -/
 def walkStep (d : Dict) (n : Nat) (w : Walk) (i ch : Nat) : Walk :=
-  let r := seek d ch (d.size + 2) w.state w.ticks
+  let r := seek d ch (max (i + 3) (d.size + 2)) w.state w.ticks
   match r.next with
   | none => { w with state := 0, ticks := r.ticks, fault := orFault w.fault r.fault }
   | some st =>
